@@ -562,6 +562,15 @@ type SpecSet struct {
 	Sealed     map[string]bool
 	Ifaces     map[string]*IfaceContract
 	Lemmas     []*Lemma
+	Codecs     map[string]*CodecDecl // key: pkgpath + "::" + type name
+}
+
+// CodecDecl: "codec T wf P eq Q by F" - the round trip of type T's Encode/Decode methods is proved by the lemma function F:
+// for every value x with P(x), decoding what T's encoder wrote yields y with Q(y, x), fails only if the reader fails and consumes
+// exactly what was written. In the lemma functions of other types (token model) a nested T is therefore one summary token.
+type CodecDecl struct {
+	Type, WF, Eq, By string
+	Pkg              string
 }
 
 type Lemma struct {
@@ -581,7 +590,7 @@ var clauseKeywords = map[string]bool{
 	"pred": true, "ghost": true, "axiom": true, "func": true, "requires": true, "ensures": true,
 	"modifies": true, "loop": true, "invariant": true, "inline": true, "trusted": true, "bounded": true,
 	"interface": true, "global": true, "assume": true, "trustedensures": true, "lemma": true, "panics": true, "pure": true,
-	"method": true, "end": true, "results": true, "unroll": true, "envassume": true, "noframe": true, "sealed": true, "callsite": true, "cutafter": true, "inlines": true, "record": true, "tokenmodel": true,
+	"method": true, "end": true, "results": true, "unroll": true, "envassume": true, "noframe": true, "sealed": true, "callsite": true, "cutafter": true, "inlines": true, "record": true, "tokenmodel": true, "codec": true,
 }
 
 // ParseContractText parses the //@ lines of a contract file.
@@ -678,6 +687,16 @@ func (ss *SpecSet) ParseContractText(pkgPath, file, text string) error {
 				return err
 			}
 			ss.Globals = append(ss.Globals, GlobalInv{pkgPath, cl})
+			cur, curLoop = nil, nil
+		case "codec":
+			f := strings.Fields(rest)
+			if len(f) != 7 || f[1] != "wf" || f[3] != "eq" || f[5] != "by" {
+				return fmt.Errorf("%s:%d: codec needs 'T wf P eq Q by F'", file, c.n)
+			}
+			if ss.Codecs == nil {
+				ss.Codecs = map[string]*CodecDecl{}
+			}
+			ss.Codecs[pkgPath+"::"+f[0]] = &CodecDecl{Type: f[0], WF: f[2], Eq: f[4], By: f[6], Pkg: pkgPath}
 			cur, curLoop = nil, nil
 		case "sealed":
 			// closed-world interface: its implementations are exactly the types of the loaded repository packages that implement it
